@@ -18,7 +18,9 @@ func propC19(r *Report, tier string) {
 	ruleFormatterSiblings(r, "K12-formatter-bounds")
 	ruleLastElementGuarded(r, "K5-last-element-guarded")
 	ruleNilSlotsNotDereferenced(r, "K6-nil-slots-not-dereferenced", "search/highlight")
-	ruleIndexMinusOneGuarded(r, "K5-index-minus-one-guarded", func(rel string) bool { return strings.HasPrefix(rel, "analysis/") || strings.HasPrefix(rel, "search/highlight") })
+	ruleIndexMinusOneGuarded(r, "K5-index-minus-one-guarded", func(rel string) bool {
+		return strings.HasPrefix(rel, "analysis/") || strings.HasPrefix(rel, "search/highlight")
+	})
 	r.Floor("K9b-token-fields", 5)
 	r.Floor("K12-formatter-bounds", 9)
 	r.Floor("K5-last-element-guarded", 1)
